@@ -51,12 +51,13 @@ TPick == /\ Ev.ev = "pick" /\ ~dead
 \* time, so the event carries the effective weights read just before (wlo/whi = componentwise
 \* min/max of the two snapshots) and after the call.  The reply must be minimal for SOME weight
 \* vector in that box: b's ratio with its largest weight is not above c's ratio with its smallest.
-RangeOK(b) == /\ avail[b] /\ Ev.whi[b] > 0
-              /\ \A c \in B : (avail[c] /\ Ev.wlo[c] > 0) => conns[b] * Ev.wlo[c] <= conns[c] * Ev.whi[b]
+RangeOK(b) == /\ avail[b] /\ w[b] > 0 /\ Ev.whi[b] > 0     \* configured weight > 0: a drained backend stays out
+              /\ (Ev.algo \in {"wlc_smooth", "wlc_simple"} =>
+                    \A c \in B : (avail[c] /\ w[c] > 0 /\ Ev.wlo[c] > 0) => conns[b] * Ev.wlo[c] <= conns[c] * Ev.whi[b])
 TPickW == /\ Ev.ev = "pickw" /\ ~dead
           /\ IF Ev.b = 0 - 1 THEN Mark("panic") /\ dead' = TRUE
              ELSE IF Ev.b = 0 - 2 THEN Mark("hang") /\ dead' = TRUE
-             ELSE IF Ev.b = 0 THEN (IF \E c \in B : avail[c] /\ Ev.wlo[c] > 0 THEN Mark("ReplyOK") /\ dead' = TRUE
+             ELSE IF Ev.b = 0 THEN (IF \E c \in B : avail[c] /\ w[c] > 0 /\ Ev.wlo[c] > 0 THEN Mark("ReplyOK") /\ dead' = TRUE
                                     ELSE UNCHANGED <<dead, bad>>)
              ELSE IF Ev.b \in B /\ RangeOK(Ev.b) THEN UNCHANGED <<dead, bad>>
              ELSE Mark("ReplyOK") /\ dead' = TRUE
